@@ -237,7 +237,7 @@ def structure(tier_name):
     """(b) decision-vector exploration of the real selection logic against the reference."""
     n = 2 if tier_name == "quick" else 3
     maxlen = 2 if tier_name == "quick" else 3
-    entries = SENT[:n] + [UNKNOWN] + (WILDCARDS[:3] if tier_name == "quick" else WILDCARDS[:5])
+    entries = SENT[:n] + [UNKNOWN] + (WILDCARDS[:3] if tier_name == "quick" else WILDCARDS)
     reg.re = _StubRe()
     t0 = time.time()
     n_cfg = n_vec = n_diff = n_q = 0
@@ -246,12 +246,12 @@ def structure(tier_name):
     configs = []
     for k in range(1, maxlen + 1):
         for lst in itertools.product(entries, repeat=k):
-            if sum(1 for e in lst if "*" in e) > 2 or len(set(lst)) != len(lst):
+            if sum(1 for e in lst if "*" in e) > (2 if tier_name == "quick" else 3) or len(set(lst)) != len(lst):
                 continue  # the CLI's CsvListAction removes repeated identical entries
             configs.append(("include", list(lst), False, None))
     for k in range(0, maxlen + 1):
         for lst in itertools.product(entries, repeat=k):
-            if sum(1 for e in lst if "*" in e) > 2 or len(set(lst)) != len(lst):
+            if sum(1 for e in lst if "*" in e) > (2 if tier_name == "quick" else 3) or len(set(lst)) != len(lst):
                 continue
             for sast in (False, True):
                 for origins in itertools.product(["pixee", "sonar"], repeat=n):
@@ -342,7 +342,7 @@ SPEC = {
     "functions": ["codemodder.registry.CodemodRegistry.match_codemods / add_codemod_collection", "DEFAULT_EXCLUDED_CODEMODS", "the regular expressions match_codemods compiles (captured at run time)"],
     "bounds": {
         "quick": "registry of n = 2 codemods (ids symbolic z3 strings, |id| <= 64, printable non-space ASCII without ',' and '*'), origins in {pixee, sonar}; include / exclude lists of length <= 2 over {id of codemod i, an unknown id, 3 wildcard templates}; both eligibility modes; all 2^k decision vectors per configuration; primitive lemmas for 7 wildcard templates in both modes",
-        "thorough": "n = 3 codemods, lists of length <= 3 over 5 wildcard templates (<= 2 wildcards per list)",
+        "thorough": "n = 3 codemods, lists of length <= 3 over all 7 wildcard templates (<= 3 wildcards per list)",
     },
     "assumptions": [
         "codemod ids are non-empty strings of printable non-space ASCII without ',' and '*'",
